@@ -8,7 +8,7 @@
 // used on the product side only) and evaluates the representation directly.
 //
 // Where the documentation leaves a choice open the result keeps every admissible answer
-// (Slot.Alts for selector ties, permutable runs of equal timestamps in a merged raw series, a
+// (Slot.Alts for selector ties between points with equal timestamps, permutable runs of equal timestamps in a merged raw series, a
 // closed integer range for integer fill(linear)); Check accepts exactly those.
 package refql
 
